@@ -79,6 +79,8 @@ def main():
 
     if ck.tier == 'thorough':
         roundtrip(ck, prog)
+    import c02_entry
+    c02_entry.run(ck, prog)
     ck.bounds.update(widths='reserves and offer full u128 (>= 1), fee shares any 18-decimal values accepted by PoolFee::is_valid',
                      roundtrip='two chained compute_swap calls (thorough)')
     ck.outside.append('osmosis fee arm (feature off)')
